@@ -27,7 +27,10 @@ def gen_config(rng, idx, shared_names, rich, kinds=None):
     inst = lambda: rng.choice([1, 2, 3, 4, 8, 16, 32, 128, 257, 300])
     freq = rng.choice([1, 7, 1000, 1000000, 1500000000])
     root = {"name": "System", "freq": freq, "local": [], "subtree": []}
-    root["local"].append({"name": "Mem" + sfx, "class": "DRAM", "attrs": {"bandwidth": rng.choice([512, 4096, 1099511627776, 3])}})
+    dram_attrs = {"bandwidth": rng.choice([512, 4096, 1099511627776, 3])}
+    if rng.random() < 0.3:
+        dram_attrs["datawidth"] = rng.choice([8, 16, 64])      # a distracting attribute: bandwidth is bits per second as written
+    root["local"].append({"name": "Mem" + sfx, "class": "DRAM", "attrs": dram_attrs})
     cur = root
     has_l2 = rng.random() < 0.5
     if has_l2 or rng.random() < 0.3:
@@ -37,7 +40,8 @@ def gen_config(rng, idx, shared_names, rich, kinds=None):
             if kinds is not None:
                 cls = kinds["l2cls"]
             mid["local"].append({"name": "L2" + sfx, "class": cls,
-                                 "attrs": {"width": 64, "depth": 1024, "bandwidth": rng.choice([2048, 64, 5])}})
+                                 "attrs": dict({"width": 64, "depth": 1024, "bandwidth": rng.choice([2048, 64, 5])},
+                                               **({"datawidth": rng.choice([8, 32])} if rng.random() < 0.2 else {}))})
         cur["subtree"].append(mid)
         cur = mid
     pe = {"name": _inst_name("PE", inst()), "freq": None, "local": [], "subtree": []}
